@@ -56,12 +56,14 @@ def value_strategy():
 
 
 def materialize(v, cache):
-    """('OPCODE', n) marks an OpCode object (one object per n within a history)."""
+    """('OPCODE', n) marks an OpCode object (one object per n within a history; only eight different
+    operation codes, so that distinct objects share a code byte the way MAINTENANCE_IN and SMC_OPCODE_A3 or
+    the SERVICE ACTION IN(16) family do in the library's tables - each with its own service actions)."""
     if isinstance(v, tuple) and len(v) == 2 and v[0] == "OPCODE":
         from pyscsi.pyscsi.scsi_opcode import OpCode
 
         if v[1] not in cache:
-            cache[v[1]] = OpCode("OP%d" % v[1], v[1], {})
+            cache[v[1]] = OpCode("OP%d" % v[1], 0xA0 + v[1] % 8, {"SA_%d" % v[1]: v[1]})
         return cache[v[1]]
     if isinstance(v, list):
         return tuple(v)
@@ -161,7 +163,12 @@ class World(object):
 
     @staticmethod
     def _reverse(e, m, v):
-        want = next((k for k, x in m.items() if x == v), "")
+        # an OpCode object is a value of its own (operation code plus its service-action table): it is found
+        # under the name that carries that very object
+        from pyscsi.pyscsi.scsi_opcode import OpCode
+
+        same = (lambda x: x is v) if isinstance(v, OpCode) else (lambda x: not isinstance(x, OpCode) and x == v)
+        want = next((k for k, x in m.items() if same(x)), "")
         try:
             got = e[v]
         except Exception as ex:  # noqa
